@@ -748,6 +748,11 @@ func Roots(v ssa.Value, deep bool) []ssa.Value {
 		case *ssa.UnOp:
 			if x.Op == token.MUL {
 				if a, ok := x.X.(*ssa.Alloc); ok {
+					// reaching definition inside the block: the nearest preceding store wins
+					if ls := lastStoreBefore(x, a); ls != nil {
+						walk(ls.Val)
+						return
+					}
 					st := StoresTo(a)
 					if len(st) == 0 {
 						out = append(out, x)
@@ -787,6 +792,18 @@ func Roots(v ssa.Value, deep bool) []ssa.Value {
 			for _, b := range bv {
 				walk(b)
 			}
+		case *ssa.Parameter:
+			// one interprocedural level up: the argument at the only call site
+			if site := SoleCallSite(x.Parent()); site != nil {
+				cc := CC(site)
+				for i, p := range x.Parent().Params {
+					if p == x && i < len(cc.Args) {
+						walk(cc.Args[i])
+						return
+					}
+				}
+			}
+			out = append(out, x)
 		case *ssa.BinOp:
 			if deep {
 				walk(x.X)
@@ -889,4 +906,27 @@ func CallOfValue(v ssa.Value) (*ssa.Call, int) {
 // SortInstrs sorts instructions by position.
 func SortInstrs(xs []ssa.Instruction) {
 	sort.SliceStable(xs, func(i, j int) bool { return xs[i].Pos() < xs[j].Pos() })
+}
+
+// lastStoreBefore returns the nearest store to cell a that precedes the load
+// in the same basic block (named results spilled for defer are stored and
+// re-loaded around rundefers in the returning block).
+func lastStoreBefore(load *ssa.UnOp, a *ssa.Alloc) *ssa.Store {
+	b := load.Block()
+	if b == nil {
+		return nil
+	}
+	idx := -1
+	for i, in := range b.Instrs {
+		if in == ssa.Instruction(load) {
+			idx = i
+			break
+		}
+	}
+	for i := idx - 1; i >= 0; i-- {
+		if st, ok := b.Instrs[i].(*ssa.Store); ok && st.Addr == a {
+			return st
+		}
+	}
+	return nil
 }
